@@ -23,8 +23,9 @@ CLAIMED = {
          "the four value-function theorems. Tied to /repo by exact comparison of results / error kinds on random trees and by "
          "an implementation-side oracle (truth table + unique multilinear form + purity of operands).",
     note="Trusted: Coq kernel + vm_compute; no axioms (closed under the global context); hand-written model of "
-         "_dict_arithmetic.py/_pubomatrix.py/_values.py; harness. Uniqueness of the canonical form is checked by the oracle "
-         "(Moebius / Walsh inversion on the implementation), not yet a Coq theorem. Floats only on dyadic values.",
+         "_dict_arithmetic.py/_pubomatrix.py/_values.py; harness. Uniqueness of the canonical form: C05_unique_zero / "
+         "C05_unique_sub for the boolean kinds (a canonical polynomial vanishing on all 0/1 assignments is empty); for the spin "
+         "kinds it is checked by the oracle (Walsh inversion on the implementation). Floats only on dyadic values.",
     technique="Coq proof (induction over expression trees) + model/implementation correspondence", ref="§5 C05"),
  "C14": dict(
     text="Coq theorems C14_init/C14_step/C14_reachable: the bookkeeping invariant (reported variables and degree are upper "
